@@ -19,7 +19,7 @@ VARIABLES chain,    \* [1..top -> [b : block uid, txs : Seq(Tx)]],  Tx = [t, out
           scanned,  \* heights whose block the wallet has scanned (rows of `blocks`)
           txs,      \* known transactions: t -> [mined : height or -1, minobs : height]
           known,    \* ids of the notes the wallet has a row for
-          ninfo,    \* note id -> [t, pool, v, int]   (every note any block ever created for the wallet; int: internal scope)
+          ninfo,    \* note id -> [t, pool, v, int, acct]   (every note any block ever created for the wallet; int: internal scope)
           links,    \* set of <<n, t>>: the wallet recorded that transaction t spends note n
           tip,      \* the wallet's chain tip (-1: unknown)
           maxFrom,  \* largest `from` of a successful Scan so far (C06 taint bookkeeping)
@@ -62,7 +62,8 @@ Block(h, b, btxs) ==
                     IF n \in DOMAIN ninfo THEN ninfo[n]
                     ELSE LET i == CHOOSE i \in DOMAIN btxs : n \in OutNotes(btxs[i])
                              j == CHOOSE j \in DOMAIN btxs[i].outs : btxs[i].outs[j].n = n
-                         IN  [t |-> btxs[i].t, pool |-> btxs[i].outs[j].pool, v |-> btxs[i].outs[j].v, int |-> btxs[i].outs[j].int]]
+                         IN  [t |-> btxs[i].t, pool |-> btxs[i].outs[j].pool, v |-> btxs[i].outs[j].v, int |-> btxs[i].outs[j].int,
+                              acct |-> btxs[i].outs[j].acct]]
     /\ UNCHANGED << scanned, txs, known, links, tip, maxFrom, taint >>
 
 ----------------------------------------------------------------------------------------
@@ -115,7 +116,7 @@ Counted(n, target) == /\ Unexpired(ninfo[n].t, target)
 
 Sum(S) == FoldSet(LAMBDA n, acc : acc + ninfo[n].v, 0, S)
 
-CountedNotes(p) == { n \in known : ninfo[n].pool = p /\ Counted(n, tip + 1) }
+CountedNotes(p) == { n \in known : ninfo[n].pool = p /\ ninfo[n].acct = 1 /\ Counted(n, tip + 1) }   \* account 1
 Ledger(p)       == Sum({ n \in CountedNotes(p) : ninfo[n].v > Dust })
 LedgerDust(p)   == Sum({ n \in CountedNotes(p) : ninfo[n].v <= Dust })
 
